@@ -16,6 +16,9 @@ ORACLES = {
     'rx-take': ('c20', 'take_oracle', 'rx_case', 66),
     'slow-connect-keepalive': ('c15', 'slow_connect_oracle', 'slow_case', 3),
     'partial-request-cancel': ('c10', 'partial_cancel_oracle', 'partial_case', 40),
+    'lease-queue-across-reconnect': ('c10', 'lease_reconnect_oracle', 'lease_reconnect_case', 9),
+    'failing-source-wire': ('c08', 'failing_source_oracle', 'failing_source_case', 36),
+    'endpoint-reads': ('c04', 'endpoint_reads_battery', 'kind', 100),
 }
 
 
